@@ -20,9 +20,10 @@ EXPLANATION = (
     ' Added later: R1 also demands that the read path refuses nothing itself: no raise of its own and `no message` only without a reader, on a failed checksum or inside the DecodeError handler (every length the 2-byte field can announce is legal).'
     ' Rounds 7-8: R6 the header codec refuses nothing but wrong prefixes / inconsistent lengths (C03.R2 re-used).'
     ' Rounds 9-10: R3 also: every successful read is delivered (must-pass-through from the truthy result to the notification) and neither the reads of one frame nor the notification chain run under a timer; R8 (C07.R7 re-used); R9 (C03.R6 re-used): the wrapper decoders hand the payload on as received.'
+    ' Round 11: R10 (C07.R5 re-used): the read loop is scheduled before anything after is_connected = True can raise or suspend.'
 )
 ASSUMPTIONS = ["asyncio.StreamReader.readexactly(n) returns exactly n bytes or raises IncompleteReadError, independent of how the bytes arrive"]
-FLOORS = {"C13.R1": 5, "C13.R2": 3, "C13.R3": 2, "C13.R4": 1, "C13.R5": 1, "C13.R6": 1, "C13.R7": 1, "C13.R8": 1, "C13.R9": 1}
+FLOORS = {"C13.R1": 5, "C13.R2": 3, "C13.R3": 2, "C13.R4": 1, "C13.R5": 1, "C13.R6": 1, "C13.R7": 1, "C13.R8": 1, "C13.R9": 1, "C13.R10": 1}
 
 
 def run(ctx):
@@ -39,6 +40,7 @@ def run(ctx):
     reuse(ctx, "C13.R8", [lambda c: c07.check_notify_isolation(c, "C07.R7", SOCKET, f"{SOCK_CLS}._notify_subscribers")], "every subscriber receives every message: a subscriber that raises does not take the delivery to its siblings down with it (C07.R7)")
     reuse(ctx, "C13.R9", [c03.r6], "the wrapper decoders hand the sub-decoder the payload bytes exactly as they were received and framed (no un-stuffing, no re-computed lengths), so whether a frame decodes does not depend on its content (C03.R6)",
           keep=lambda o: "sub-buffer" in o.construct or "sub-length" in o.construct or o.verdict != "HOLDS")
+    reuse(ctx, "C13.R10", [c07.r5], "every connection has a read loop from the moment it is established: nothing between is_connected = True and the scheduling of _read() may raise or suspend, so bytes the console sends - however segmented - are never left unread behind a failed notification or flush (C07.R5, the D8 repair)")
     reuse(ctx, "C13.R6", [c03.r2], "the header codec refuses a header only for a wrong prefix or inconsistent lengths: a frame that is legal on the wire is never the cause of a reset that loses the frames behind it (C03.R2)",
           keep=lambda o: "rejects" in o.construct or o.verdict != "HOLDS")
     reuse(ctx, "C13.R7", [c07.r1, c07.r11], "a bad frame is followed by an awaited reset before anything else is read, and each socket's tasks are its own: what is delivered depends on the byte stream only (C07.R1, C07.R11)")
